@@ -5,6 +5,7 @@ CONSTANTS
   ObfsMin = 64
   ObfsMax = 8192
   MaxRead = 4096
+  MarkMode = "release"
   MaxW = 3
   Cases = {}
 INVARIANTS NoBytes NoEarlyClose KeepsReading MatchSound ConsumeExact FoundWhenComplete NeverDropsMatching MarkedUsed HighWater
